@@ -1,6 +1,6 @@
 import UF.Model.NewRule
 import UF.Proofs.MatchDomain
-namespace UF
+namespace UF.E
 open Bytes
 
 /-! ### combinators -/
@@ -576,4 +576,4 @@ theorem shouldMatchHostnameC_eq (r : NetRule) (q : Request) :
   · rw [if_neg hlen]
     simp [hlen, pure, Except.pure]
 
-end UF
+end UF.E
